@@ -19,7 +19,7 @@ ASSUMPTIONS = ["serde's std impls (Vec, arrays, tuples, BTreeMap, Option, primit
 TRUSTED_EXTRA = ["verifkit/props/serde_types.py: type table, spec encoder, reference parser"]
 
 TREES = {n: T.parse_type(d, native=True) for n, d in T.SHARED.items()}
-FRAMES = {"canon": {}, "wide": dict(wide=True), "flip": dict(flip=0.6), "chunk": dict(chunk=0.6), "fliptup": dict(fliptup=True, flip=0.4),
+FRAMES = {"canon": {}, "wide": dict(wide=True), "flip": dict(flip=0.6), "fnarrow": dict(fnarrow=0.9), "chunk": dict(chunk=0.6), "fliptup": dict(fliptup=True, flip=0.4),
           "all": dict(wide=True, flip=0.4, fliptup=True, chunk=0.3)}
 
 
